@@ -2,3 +2,61 @@
 #![allow(dead_code, unused_imports)]
 use super::*;
 
+
+use std::cell::RefCell;
+use std::collections::VecDeque;
+
+thread_local! {
+    static FORCED_SALTS: RefCell<VecDeque<[u8; 4]>> = RefCell::new(VecDeque::new());
+    static SALT_LOG: RefCell<Vec<[u8; 4]>> = RefCell::new(Vec::new());
+}
+
+/// the harness prescribes the 4 random salt bytes of the next InitState objects (creation order)
+pub fn push_salt(s: [u8; 4]) {
+    FORCED_SALTS.with(|q| q.borrow_mut().push_back(s));
+}
+
+pub fn clear_salts() {
+    FORCED_SALTS.with(|q| q.borrow_mut().clear());
+    SALT_LOG.with(|q| q.borrow_mut().clear());
+}
+
+pub fn salts_left() -> usize {
+    FORCED_SALTS.with(|q| q.borrow().len())
+}
+
+pub fn salt_log_len() -> usize {
+    SALT_LOG.with(|q| q.borrow().len())
+}
+
+/// called from InitState::new (guarded line in src/crypto/init.rs)
+pub fn force_salt(salt: &mut [u8]) {
+    if let Some(s) = FORCED_SALTS.with(|q| q.borrow_mut().pop_front()) {
+        salt.copy_from_slice(&s);
+    }
+    let mut a = [0u8; 4];
+    a.copy_from_slice(salt);
+    SALT_LOG.with(|q| q.borrow_mut().push(a));
+}
+
+pub fn stage<P: Payload>(i: &InitState<P>) -> u8 {
+    i.next_stage
+}
+pub fn retries<P: Payload>(i: &InitState<P>) -> usize {
+    i.failed_retries
+}
+pub fn close_time<P: Payload>(i: &InitState<P>) -> usize {
+    i.close_time
+}
+pub fn has_last<P: Payload>(i: &InitState<P>) -> bool {
+    i.last_message.is_some()
+}
+pub fn has_ecdh<P: Payload>(i: &InitState<P>) -> bool {
+    i.ecdh_private_key.is_some()
+}
+pub fn has_core<P: Payload>(i: &InitState<P>) -> bool {
+    i.crypto.is_some()
+}
+pub fn salted_hash<P: Payload>(i: &InitState<P>) -> Vec<u8> {
+    i.salted_node_id_hash.to_vec()
+}
